@@ -34,8 +34,9 @@ func (b *FormBinding) Bind(req *fasthttp.Request, out any) error {
 			return
 		}
 
-		k := utils.UnsafeString(key)
-		v := utils.UnsafeString(val)
+		// bound keys and values outlive the request: never alias its buffers
+		k := string(key)
+		v := string(val)
 		err = formatBindData(out, data, k, v, b.EnableSplitting, true)
 	})
 
